@@ -237,9 +237,6 @@ func classify(x interface{}) string {
 		if _ = base; isArr && depth >= 2 && rv.Len() == 0 && !rv.IsNil() && int(mask&0x3f) == int(ua.TypeIDVariant) {
 			return "C01.variant-empty-multidim"
 		}
-		if isArr && int(mask&0x3f) == int(ua.TypeIDByteString) && alen > 0 {
-			return "C01.variant-bytestring-array"
-		}
 		if isArr && len(dims) >= 2 && int(alen) != countLeaves(rv) {
 			return "C01.variant-ragged"
 		}
@@ -287,8 +284,9 @@ func (e *env) findings() {
 	run([][][]int32{{{1}, {2}}, {{3, 4}, {5, 6}}})
 	run([][]int32{nil, nil})
 	run([][][]string{{nil}, {nil}})
-	// NewVariant refuses arrays of ByteStrings of different lengths (taken for an unbalanced matrix): compared with the model only
+	// arrays of ByteString (repaired: used to be encoded without their elements / refused for different lengths)
 	run([][]byte{{1}, {2, 3}})
+	run([][][]byte{{{1}, {}}, {nil, {2, 3}}})
 	n := e.o.N(40, 2000)
 	for i := 0; i < n; i++ {
 		id := 1 + e.rnd.Intn(25)
@@ -297,9 +295,6 @@ func (e *env) findings() {
 			sh := e.g.Shape(true)
 			if e.rnd.Chance(30) {
 				sh = codecx.VariantShape{Kind: "array", Dims: []int{0, 1 + e.rnd.Intn(2)}}
-			}
-			if id == int(ua.TypeIDByteString) {
-				id = int(ua.TypeIDString)
 			}
 			run(e.g.VariantOf(id, sh, 2))
 		case 1: // arrays of ByteString
@@ -419,9 +414,6 @@ func (e *env) builtins() {
 	for id := 0; id <= 25; id++ {
 		for k := 0; k < e.o.N(12, 200); k++ {
 			sh := e.g.Shape(false)
-			if id == int(ua.TypeIDByteString) && sh.Kind != "scalar" {
-				continue
-			}
 			x := e.g.VariantOf(id, sh, 1)
 			v := e.newVariant(x)
 			if v == nil {
